@@ -1,8 +1,8 @@
 (* C11 — facts about the REGENERATED schema (coq/Valid/Generated.v is rewritten from the running code on every
    check run, so these are re-checked against what FlowIR.type_flowir_component('full') says now). *)
-From Coq Require Import String Ascii List Bool ZArith NArith.
+From Coq Require Import String Ascii List Bool ZArith NArith Relations.
 Import ListNotations.
-Require Import V.Lib.PyStr V.Valid.Model V.Valid.Proofs V.Valid.Generated.
+Require Import V.Lib.PyStr V.Valid.Model V.Valid.Proofs V.Valid.Kahn V.Valid.Generated.
 Open Scope string_scope.
 Open Scope list_scope.
 
@@ -67,3 +67,23 @@ Definition ex_wf : wf :=
         mkComp 0 "b" [(0%N, "a")] ["g0"] []
                (ex_doc "b" 0 ["stage0.a:ref"] [(KS "resourceRequest", VDict [(KS "numberProcesses", VInt 2)])]);
         mkComp 1 "c" [(0%N, "b"); (0%N, "a")] [] [] (ex_doc "c" 1 ["stage0.b:ref"; "stage0.a:ref"] [])].
+
+(* the three CyclicVars instances of the non-vacuity example satisfy [applicable]; the variable tables of the example
+   are dictionaries *)
+Lemma ex_cyclic_applicable :
+  applicable component_full (CyclicVars None "g0" "g1") ex_wf /\
+  applicable component_full (CyclicVars None "g0" "lv") ex_wf /\
+  applicable component_full (CyclicVars (Some 0) "lv" "lv") ex_wf /\
+  dicts_ok ex_wf.
+Proof.
+  split; [|split; [|split]].
+  - left. cbn. split; [auto|]. split; [auto|]. right. apply t_step. exists ["g0"]. cbn. auto.
+  - right. eexists. exists []. split; [left; reflexivity|]. split; [cbn; auto|]. split; [|split].
+    + cbn. intros [E | []]; discriminate.
+    + reflexivity.
+    + right. apply t_step. exists ["g0"]. cbn. auto.
+  - eexists. exists ["g0"]. split; [reflexivity|]. split; [cbn; auto|]. left; reflexivity.
+  - split.
+    + cbn. repeat constructor; cbn; intuition discriminate.
+    + intros c I. cbn in I. destruct I as [<- | [<- | [<- | []]]]; cbn; repeat constructor; cbn; intuition.
+Qed.
